@@ -231,8 +231,29 @@ func jobsMidBatch(tier string) []Job {
 	return chunk(map[string]any{"fix": "std", "init": []string{"A w/d", "A w/f"}}, hs, vars, 12)
 }
 
+// jobsRotation: the log-rotation family of histories on a watched file and on
+// an entry of a watched directory (delete or rename while a descriptor is held
+// open, recreate, re-add, close the old descriptor, use the new file), too long
+// for the BFS depth, in several batchings.
+func jobsRotation(tier string) []Job {
+	var hs [][]string
+	for _, f := range []string{"w/f", "w/d/a"} {
+		steps := []string{"open " + f, "rm " + f, "touch " + f, "A " + f, "closefd " + f, "write " + f, "chmod " + f, "rm " + f}
+		hs = append(hs, steps)
+		hs = append(hs, []string{steps[0], steps[1] + " ;; " + steps[2], steps[3], steps[4] + " ;; " + steps[5], steps[6], steps[7]})
+		hs = append(hs, []string{steps[0] + " ;; " + steps[1] + " ;; " + steps[2], steps[3] + " ;; " + steps[4], steps[5] + " ;; " + steps[6] + " ;; " + steps[7]})
+		mv := []string{"open " + f, "mv " + f + " w/old", "touch " + f, "A " + f, "write w/old", "closefd " + f, "write " + f, "rm w/old", "write " + f}
+		hs = append(hs, mv)
+		hs = append(hs, []string{mv[0], mv[1] + " ;; " + mv[2] + " ;; " + mv[3], mv[4] + " ;; " + mv[5], mv[6], mv[7] + " ;; " + mv[8]})
+		hs = append(hs, []string{"ln " + f + " w/hl", "rm " + f, "touch " + f, "A " + f, "write " + f, "write w/hl", "rm w/hl", "write " + f})
+		hs = append(hs, []string{"R " + f, "A " + f, "write " + f, "R " + f + " ;; A " + f, "write " + f, "R " + f + " ;; A " + f + " ;; write " + f})
+	}
+	return chunk(map[string]any{"fix": "std", "init": []string{"A w/d", "A w/f"}}, hs, nil, 2)
+}
+
 func eventsJobs(tier string) []Job {
 	var jobs []Job
+	jobs = append(jobs, jobsRotation(tier)...)
 	jobs = append(jobs, jobsMidBatch(tier)...)
 	jobs = append(jobs, jobsNames(tier, []string{"w/d"}, "")...)
 	jobs = append(jobs, jobsBufferEdges(tier)...)
@@ -241,16 +262,16 @@ func eventsJobs(tier string) []Job {
 }
 
 func init() {
-	ev := func(prop, oracle string) *CheckDef {
+	ev := func(prop, oracle string, extra func(string) []Job) *CheckDef {
 		return &CheckDef{Prop: prop, Rule: eventsRule,
 			Technique: "explicit-state model checking of the real code (BFS over histories x batchings) plus exhaustive enumeration of name-shape batches and buffer-boundary bursts; oracle = " + oracle,
 			BFS:       func(tier string) []*BFSDef { return []*BFSDef{bfsEvents(tier)} },
-			Jobs:      eventsJobs,
+			Jobs:      func(tier string) []Job { return append(eventsJobs(tier), extra(tier)...) },
 			Assume:    []string{"the kernel's record stream, captured at the read seam, is ground truth", "histories are sequential; reader/consumer interleavings are covered by C03/C05/C07's schedule exploration"}}
 	}
-	Checks["C01"] = ev("C01", "every must-deliver kernel record appears on Events exactly once with the documented operation and name; a shortfall is only allowed behind a kernel overflow marker, which must yield ErrEventOverflow")
-	Checks["C02"] = ev("C02", "every received event is backed by a kernel record of a currently listed watch (or a direct child), has a non-empty Op, and none stems from housekeeping records or from changes after Remove returned")
-	Checks["C03"] = ev("C03", "the received sequence equals the translated kernel sequence in order (optional records may only be dropped, never moved)")
+	Checks["C01"] = ev("C01", "every must-deliver kernel record appears on Events exactly once with the documented operation and name; a shortfall is only allowed behind a kernel overflow marker, which must yield ErrEventOverflow", func(string) []Job { return nil })
+	Checks["C02"] = ev("C02", "every received event is backed by a kernel record of a currently listed watch (or a direct child), has a non-empty Op, and none stems from housekeeping records or from changes after Remove returned", func(string) []Job { return nil })
+	Checks["C03"] = ev("C03", "the received sequence equals the translated kernel sequence in order (optional records may only be dropped, never moved); plus E1: every interleaving up to the preemption bound of reader, consumer and a short history for Events capacities default, 1, 2, 64", orderJobs)
 }
 
 // ---------------- C08: names follow the caller's spelling ----------------
